@@ -3,7 +3,7 @@
 Require Extraction.
 Require Import ExtrOcamlBasic.
 From Coq Require Import ZArith QArith List Bool.
-From Pandora Require Import Lib.Value Model.Dataset Model.Multiscale.
+From Pandora Require Import Lib.Value Model.Dataset Model.Multiscale Gen.MsConst.
 Import ListNotations.
 Open Scope Z_scope.
 
@@ -45,7 +45,7 @@ Definition enc_grids (g : grids) : value :=
    fid 5: (sf n) -> zoom index map of an axis of length n *)
 Definition dispatch (fid : Z) (v : value) : value :=
   match fid with
-  | 1 => let '(n, sf) := read_multiscale_params (map dec_step (as_l v)) in VL [VZ n; VZ sf]
+  | 1 => let '(n, sf) := read_multiscale_params ms_default_num_scales ms_default_scale_factor (map dec_step (as_l v)) in VL [VZ n; VZ sf]
   | 2 => VZ (level_size (as_nat (vnth 2 v)) (as_z (vnth 0 v)) (as_z (vnth 1 v)))
   | 3 => VL (map (fun p => VL [enc_grids (fst p); enc_opt enc_grids (snd p)])
                  (run_grids (as_z (vnth 0 v)) (as_z (vnth 1 v)) (as_z (vnth 2 v)) (as_z (vnth 3 v))
